@@ -400,17 +400,17 @@ Proof. vm_compute. reflexivity. Qed.
        restart counters of that second go on from 0006;
    (3) an archive a_r1970-01-01_00-00-01.log.gz: the plain name of that second counts as taken, the files of that second
        start with restart-0000;
-   (4) names that chrono's lenient parser reads as a time stamp pass the test as well: a_r1970-1-1_0-0-0.log (no leading
-       zeros), "a_r 1970-01-01_00-00-00.log" (white space), a_r+1970-01-01_00-00-00.log (a sign).  latest_timestamp_file lists
-       them, cuts 20 bytes out of the name and does not get a time stamp out of those: no effect in this history.
-   All these names DO follow the pattern <fixed>_<infix of the naming>.<suffix>[.gz]: this is legitimate. *)
+   (4) names that only chrono's lenient parser reads as a time stamp do NOT pass the test (since the repair of the
+       time-stamp filter, which wants the text the format itself writes): a_r1970-1-1_0-0-0.log (no leading zeros),
+       "a_r 1970-01-01_00-00-00.log" (white space), a_r+1970-01-01_00-00-00.log (a sign) are foreign.
+   The names of (1)-(3) DO follow the pattern <fixed>_<infix of the naming>.<suffix>[.gz]: this is legitimate. *)
 Example member_files_td :
   let run_with n := ex_snap (fst (run (sys0f 0 0 [(bs n, bs "w")]) (OStart extd_c :: extd_ops ++ [OStop]))) in
   List.map (tsd_member extd_c) [bs "a_r1999-01-01_00-00-00.log"; bs "a_r1970-01-01_00-00-01.restart-0005.log";
                                 bs "a_r1970-01-01_00-00-01.log.gz";
                                 bs "a_r 1970-01-01_00-00-00.log"; bs "a_r1970-1-1_0-0-0.log"; bs "a_r+1970-01-01_00-00-00.log";
                                 bs "a_r2024-02-29_23-59-58.log"]
-  = [true; true; true; true; true; true; true]
+  = [true; true; true; false; false; false; true]
   /\ run_with "a_r1999-01-01_00-00-00.log"
      = [ (bs "a_r1970-01-01_00-00-00.log", 0%N, bs "ef");
          (bs "a_r1970-01-01_00-00-01.log", 0%N, bs "ghij");
@@ -426,13 +426,7 @@ Example member_files_td :
          (bs "a_r1970-01-01_00-00-00.restart-0000.log", 0%N, bs "ef");
          (bs "a_r1970-01-01_00-00-01.log.gz", 0%N, bs "w");
          (bs "a_r1970-01-01_00-00-01.restart-0000.log", 0%N, bs "ghij");
-         (bs "a_r1970-01-01_00-00-01.restart-0001.log", 0%N, bs "k") ]
-  /\ run_with "a_r1970-1-1_0-0-0.log"
-     = [ (bs "a_r1970-01-01_00-00-00.log", 0%N, bs "abcd");
-         (bs "a_r1970-01-01_00-00-00.restart-0000.log", 0%N, bs "ef");
-         (bs "a_r1970-01-01_00-00-01.log", 0%N, bs "ghij");
-         (bs "a_r1970-01-01_00-00-01.restart-0000.log", 0%N, bs "k");
-         (bs "a_r1970-1-1_0-0-0.log", 0%N, bs "w") ].
+         (bs "a_r1970-01-01_00-00-01.restart-0001.log", 0%N, bs "k") ].
 Proof. vm_compute. repeat split. Qed.
 
 (* A NUMBER INFIX IS FOREIGN for this naming.  Before the repair of the code latest_timestamp_file listed the directory
